@@ -127,6 +127,11 @@ def check_fold(chk, rule, where, kf, what, *, kind, term=None, sense=None, init_
         # the fold still depends on which call context holds: it was not brought to one form for all of them
         chk.undecided(rule, where, "%s: built as %s, which differs between the call contexts of the method; equivalence with %s not established" % (what, found[:200], expected))
         return False
+    if kind == "ARGSET" and kf.kind in ("OTHER", "ARGSET") and (kf.has_break or kf.has_return) and kf.source == source:
+        # whatever the stop test is: an action further down the list that ties with the optimum is never looked at
+        chk.violation(rule, where, "%s: the loop is left early (%s): successors after that point are never examined, so an action that ties with the optimum there is not listed" % (
+            what, "break" if kf.has_break else "return inside the loop"), expected=expected, found=found, construct="%s %s" % (where.split(" ", 1)[-1], what))
+        return False
     if kf.kind in ("OTHER", "LAST", "UNCHANGED", None) or (kf.kind == "ARGSET" and kf.of is None):
         why = _broken_fold(kf, kind)
         if why:
